@@ -1110,7 +1110,7 @@ class TT():
                     cores.append(self.cores[i])
 
             S = TT(cores)
-            S.reduce_dims()
+            S.reduce_dims([i for i in range(len(self.__N)) if i not in index])
             if len(S.cores) == 1 and tn.numel(S.cores[0]) == 1:
                 S = tn.squeeze(S.cores[0])
         return S
